@@ -231,7 +231,13 @@ func c03Atoms() []c03Atom {
 	basic := func(name string, zero interface{}, g func(rng *rand.Rand) reflect.Value, opt ...string) {
 		t := reflect.TypeOf(zero)
 		as = append(as, c03Atom{Name: name, Typ: t, Gen: func(r *rand.Rand) reflect.Value { return g(r).Convert(t) }, Opt: opt})
-		as = append(as, c03Atom{Name: "*" + name, Typ: reflect.PointerTo(t), Gen: ptrTo(t, g)})
+		var popt []string
+		for _, o := range opt { // pointer fields carry the default: variants too (nil = zero ⇒ default applies; non-nil is kept)
+			if strings.HasPrefix(o, "default:") {
+				popt = append(popt, o)
+			}
+		}
+		as = append(as, c03Atom{Name: "*" + name, Typ: reflect.PointerTo(t), Gen: ptrTo(t, g), Opt: popt})
 	}
 	basic("bool", false, func(r *rand.Rand) reflect.Value { return rv(r.Intn(2) == 0) }, "default:true", "default:false")
 	basic("int8", int8(0), func(r *rand.Rand) reflect.Value { return rv(genI(r, math.MinInt8, math.MaxInt8)) })
@@ -904,7 +910,7 @@ func c03MapOK(s *c03Schema) bool {
 
 func c03E2ESuite(r *Result, rng *rand.Rand, tier string) {
 	nSchemas := 150
-	if tier != "quick" {
+	if tier == "thorough" {
 		nSchemas = 2500
 	}
 	modes := []string{"single", "values", "pointers", "batches", "batches", "map", "maps", "maps-val"}
@@ -921,11 +927,11 @@ func c03E2ESuite(r *Result, rng *rand.Rand, tier string) {
 					r.H("e2e.skipped", "map-create on schema with serializer/custom/default/embedded fields")
 					continue
 				}
-				if tier == "quick" && rng.Intn(2) == 0 {
+				if tier != "thorough" && rng.Intn(2) == 0 {
 					continue
 				}
 				n := 1 + rng.Intn(6)
-				if tier != "quick" && rng.Intn(6) == 0 {
+				if tier == "thorough" && rng.Intn(6) == 0 {
 					n = 10 + rng.Intn(25)
 				}
 				in := c03E2EInput{SchemaSeed: seed, RecSeed: rng.Int63n(1 << 40), N: n, Mode: mode, Returning: returning, Desc: s.Desc}
